@@ -1,3 +1,5 @@
 pub mod c17;
 pub mod c13;
 pub mod faults;
+pub mod c15;
+pub mod c16;
